@@ -30,7 +30,12 @@ KeyList == <<
   KAllOthers,                                            \* all_others
   KAll,                                                  \* all
   <<"~","^",".","*","$">>,                               \* ~^.*$
-  <<"~","^","c","a","m","[","0","-","9","]","+","$">> >> \* ~^cam[0-9]+$
+  <<"~","^","c","a","m","[","0","-","9","]","+","$">>,  \* ~^cam[0-9]+$
+  \* expressions that are NOT anchored: "matching" is Go's: the expression is found somewhere in
+  \* the name, the groups are those of the leftmost match (literal prefix "cam", "m", none)
+  <<"~","c","a","m","(","[","0","-","9","]","+",")">>,  \* ~cam([0-9]+)
+  <<"~","m","(",".",")">>,                               \* ~m(.)
+  <<"~","[","0","-","9","]","b">> >>                     \* ~[0-9]b
 CatchAll == {KAllOthers, KAll, <<"~","^",".","*","$">>}
 \* conf.Validate: all_others, all and ~^.*$ are aliases, at most one of them may be configured
 CfgSets == {K \in SUBSET (1..Len(KeyList)) :
